@@ -333,6 +333,15 @@ def gen_random(scn, rng, depth, weights=None):
             nxt = {'Freeze': ['Down', 'Down', 'Up'], 'Down': ['Up', 'Freeze', 'Up'],
                    'Up': ['Down', 'Freeze', 'Down']}.get(last_state.get(s), ['Down', 'Up', 'Freeze'])
             ev = rng.choice(nxt)
+            if rng.random() < 0.3:
+                # chains that separate "state changed" from "went down": the retention
+                # clock starts when the server goes DOWN, whatever it was before
+                chain = rng.choice([['Freeze', 'Tick', 'Down'], ['Down', 'Tick', 'Up', 'Down'],
+                                    ['Freeze', 'Tick', 'Up', 'Tick', 'Down'], ['Down', 'Tick', 'Freeze']])
+                for c in chain:
+                    hist.append(('Tick', [rng.choice([1, 2, 3])]) if c == 'Tick' else (c, [s]))
+                last_state[s] = chain[-1]
+                continue
             last_state[s] = ev
             hist.append((ev, [s]))
         elif kind == 'MarkUnschedule' and apps:
